@@ -36,6 +36,17 @@ PROPS = {
         "trusted_base": [KERNEL, TIE],
         "assumptions": [],
     },
+    "C04": {
+        "lean": ["TinkVerif.Props.C04"],
+        "theorems": ["TinkVerif.Cmac.compute_eq_spec", "TinkVerif.Cmac.cbcLoop_eq", "TinkVerif.Mac.verify_iff",
+                     "TinkVerif.Mac.compute_layout", "TinkVerif.Mac.legacy_suffix", "TinkVerif.Mac.verify_wrong_length",
+                     "TinkVerif.Mac.hmac_param_guard", "TinkVerif.Mac.cmac_param_guard",
+                     "TinkVerif.outputPrefix_inj", "TinkVerif.outputPrefix_tink_ne_crunchy"],
+        "harness": [{"name": "c04"}],
+        "rule": "",
+        "trusted_base": [KERNEL, TIE],
+        "assumptions": [],
+    },
 }
 
 NOT_BUILT = {}
